@@ -110,7 +110,7 @@ impl FromStr for Imm {
             } else {
                 match u32::from_str_radix(stripped, 16) {
                     #[allow(clippy::cast_possible_wrap)]
-                    Ok(i) => Ok(Imm(mul * i as i32)),
+                    Ok(i) => Ok(Imm((i as i32).wrapping_mul(mul))),
                     Err(_) => Err(()),
                 }
             }
@@ -120,7 +120,7 @@ impl FromStr for Imm {
             } else {
                 match u32::from_str_radix(stripped, 2) {
                     #[allow(clippy::cast_possible_wrap)]
-                    Ok(i) => Ok(Imm(mul * i as i32)),
+                    Ok(i) => Ok(Imm((i as i32).wrapping_mul(mul))),
                     Err(_) => Err(()),
                 }
             }
